@@ -27,25 +27,57 @@ pub uninterp spec fn f64_of(x: f32) -> f64;
 pub fn f64_of_f32(x: f32) -> (r: f64) ensures r == f64_of(x) { x as f64 }
 /// `x as f32` for an f64 (rounding; uninterpreted)
 pub uninterp spec fn f32_of(x: f64) -> f32;
-#[verifier::external_body]
-pub fn f32_of_f64(x: f64) -> (r: f32) ensures r == f32_of(x) { x as f32 }
-/// float `==` (uninterpreted but deterministic); `!=` is its negation (IEEE 754)
+/// float `==` on doubles (uninterpreted but deterministic); `!=` is its negation (IEEE 754)
 pub uninterp spec fn feq(a: f64, b: f64) -> bool;
+
+/// The element type of the work window is taken from the real text (`vec![0f64; DATA_SIZE]`).  C15: the
+/// per-base sum is computed in double precision and narrowed once at the end, so the whole vocabulary is
+/// written over f64 cells; `c64`/`e64` read a window / a cell as doubles.  For f64 both are the identity.
+/// The f32 instance only exists so that an edit changing the accumulator type is JUDGED (its sums are
+/// f32 additions, which are not the f64 fold the contract demands) instead of being rejected by rustc.
+pub trait Cell: Sized {
+    spec fn seq64(s: Seq<Self>) -> Seq<f64>;
+    spec fn elt64(x: Self) -> f64;
+    spec fn narrow(x: Self) -> f32;
+}
+impl Cell for f64 {
+    open spec fn seq64(s: Seq<f64>) -> Seq<f64> { s }
+    open spec fn elt64(x: f64) -> f64 { x }
+    open spec fn narrow(x: f64) -> f32 { f32_of(x) }
+}
+impl Cell for f32 {
+    open spec fn seq64(s: Seq<f32>) -> Seq<f64> { Seq::new(s.len(), |i: int| f64_of(s[i])) }
+    open spec fn elt64(x: f32) -> f64 { f64_of(x) }
+    open spec fn narrow(x: f32) -> f32 { x }
+}
+pub open spec fn c64<T: Cell>(s: Seq<T>) -> Seq<f64> { T::seq64(s) }
+pub open spec fn e64<T: Cell>(x: T) -> f64 { T::elt64(x) }
+/// `a == b` / `a != b` on cells; `x as f32` on a cell
 #[verifier::external_body]
-pub fn f64_eq(a: f64, b: f64) -> (r: bool) ensures r == feq(a, b) { a == b }
+pub fn cell_eq<T: Cell>(a: T, b: T) -> (r: bool) ensures r == feq(e64(a), e64(b)) { unimplemented!() }
 #[verifier::external_body]
-pub fn f64_ne(a: f64, b: f64) -> (r: bool) ensures r == !feq(a, b) { a != b }
+pub fn cell_ne<T: Cell>(a: T, b: T) -> (r: bool) ensures r == !feq(e64(a), e64(b)) { unimplemented!() }
+#[verifier::external_body]
+pub fn cell_to_f32<T: Cell>(a: T) -> (r: f32) ensures r == T::narrow(a) { unimplemented!() }
 
 /// `&mut data[a..b]`: the slice expression panics unless a <= b <= len
-pub fn slice_bounds(d: &Vec<f64>, a: usize, b: usize)
+pub fn slice_bounds<T>(d: &Vec<T>, a: usize, b: usize)
     requires a <= b <= d@.len(),
 { }
 /// one element of `&mut data[a..b]` handed out by the slice iterator
 #[verifier::external_body]
-pub fn cell_mut(data: &mut Vec<f64>, i: usize) -> (r: &mut f64)
+pub fn cell_mut<T>(data: &mut Vec<T>, i: usize) -> (r: &mut T)
     requires i < old(data)@.len(),
     ensures *r == old(data)@[i as int], final(data)@ == old(data)@.update(i as int, *final(r)),
 { &mut data[i] }
+/// `u32::wrapping_add` (real semantics, so that an edit using it is judged)
+#[verifier::external_body]
+pub fn u32_wrapping_add(a: u32, b: u32) -> (r: u32)
+    ensures r as int == (if a as int + b as int > u32::MAX as int { a as int + b as int - 0x1_0000_0000 } else { a as int + b as int }),
+{ a.wrapping_add(b) }
+spec fn umax() -> int { u32::MAX as int }
+/// start of the window after [cs, cs + DATA_SIZE): saturates at u32::MAX
+spec fn next_cs(cs: int) -> int { imin(cs + DATA_SIZE as int, u32::MAX as int) }
 
 // ---------------- vocabulary: the window ----------------
 spec fn imax(a: int, b: int) -> int { if a >= b { a } else { b } }
@@ -218,7 +250,7 @@ proof fn lemma_emit_empty(d: Seq<f64>, cs: int)
 /// closing the run r = [a, b) behind output that lies before cell a
 proof fn lemma_emit_push(runs: Seq<(int, int)>, r: (int, int), d: Seq<f64>, cs: int, n: int)
     requires
-        0 <= r.0 < r.1 <= n <= DATA_SIZE, 0 <= cs, cs + DATA_SIZE as int <= u32::MAX as int,
+        0 <= r.0 < r.1 <= n <= DATA_SIZE, 0 <= cs, cs + n <= u32::MAX as int,
         sorted_in(emit(runs, d, cs), cs, cs + r.0),
     ensures
         emit(runs.push(r), d, cs) == (if !feq(d[r.0], 0.0f64) { emit(runs, d, cs).push(run_value(r, d, cs)) } else { emit(runs, d, cs) }),
@@ -262,7 +294,7 @@ spec fn close_run(o: Seq<Value>, r: (int, int), d: Seq<f64>, cs: int) -> Seq<Val
 /// closed runs tile [0, s), are maximal, have been emitted; the open run [s, idx) has equal sums
 #[verifier::opaque]
 spec fn rle_deep(runs: Seq<(int, int)>, o: Seq<Value>, d: Seq<f64>, cs: int, n: int, s: int, idx: int) -> bool {
-    &&& 0 <= idx <= n <= DATA_SIZE && d.len() == DATA_SIZE && 0 <= cs && cs + DATA_SIZE as int <= u32::MAX as int
+    &&& 0 <= idx <= n <= DATA_SIZE && d.len() == DATA_SIZE && 0 <= cs && cs + n <= u32::MAX as int
     &&& idx == 0 ==> s == 0
     &&& idx > 0 ==> 0 <= s < idx
     &&& runs_tile(runs, s)
@@ -272,7 +304,7 @@ spec fn rle_deep(runs: Seq<(int, int)>, o: Seq<Value>, d: Seq<f64>, cs: int, n: 
     &&& forall|j: int| s < j < idx ==> feq(d[s], #[trigger] d[j])
 }
 proof fn lemma_rle_init(d: Seq<f64>, cs: int, n: int)
-    requires 0 <= n <= DATA_SIZE, d.len() == DATA_SIZE, 0 <= cs, cs + DATA_SIZE as int <= u32::MAX as int,
+    requires 0 <= n <= DATA_SIZE, d.len() == DATA_SIZE, 0 <= cs, cs + n <= u32::MAX as int,
     ensures rle_deep(Seq::<(int, int)>::empty(), Seq::<Value>::empty(), d, cs, n, 0, 0),
 {
     reveal(rle_deep); reveal(sorted_in);
@@ -368,7 +400,6 @@ pub struct Win {
 pub struct Hist {
     pub wins: Seq<Win>,
     pub emitted: Seq<Value>,
-    pub limit: int,                                  // no input value ends beyond this base
 }
 spec fn zeros() -> Seq<f64> { Seq::new(DATA_SIZE as nat, |i: int| 0.0f64) }
 spec fn pends(s: Seq<(VIter, Option<Value>)>) -> Seq<Seq<Result<Value, MergeError>>> {
@@ -403,9 +434,6 @@ spec fn total_len(ps: Seq<Seq<Result<Value, MergeError>>>) -> int
 {
     if ps.len() == 0 { 0 } else { total_len(ps.drop_last()) + ps.last().len() }
 }
-spec fn ends_by(ps: Seq<Seq<Result<Value, MergeError>>>, limit: int) -> bool {
-    forall|i: int, j: int| 0 <= i < ps.len() && 0 <= j < ps[i].len() && (#[trigger] ps[i][j]) is Ok ==> ps[i][j]->Ok_0.end <= limit
-}
 spec fn all_sec_ok(ps: Seq<Seq<Result<Value, MergeError>>>, cs: int) -> bool {
     forall|i: int| 0 <= i < ps.len() ==> sec_ok(#[trigger] ps[i], cs)
 }
@@ -416,20 +444,20 @@ spec const MAXHALF: int = 0x7fff_ffff_ffff_ffff;
 /// max_data_len, max_sections, all_none; the first error stops the loop.  Every clause below is the
 /// fold of the corresponding proved clause of `next_section`.
 #[verifier::external_body]
-fn accumulate_sections(sections: &mut Vec<(VIter, Option<Value>)>, data: &mut Vec<f64>, current_start: u32, max_data_len: usize, max_sections: usize, all_none: bool, self_error: &mut bool) -> (r: (usize, usize, bool, Option<MergeError>, Ghost<Seq<int>>))
+fn accumulate_sections<T: Cell>(sections: &mut Vec<(VIter, Option<Value>)>, data: &mut Vec<T>, current_start: u32, max_data_len: usize, max_sections: usize, all_none: bool, self_error: &mut bool) -> (r: (usize, usize, bool, Option<MergeError>, Ghost<Seq<int>>))
     requires
-        old(data)@.len() == DATA_SIZE, current_start as int + DATA_SIZE as int <= u32::MAX as int,
+        old(data)@.len() == DATA_SIZE,
         all_sec_ok(pends(old(sections)@), current_start as int),
-        max_data_len <= DATA_SIZE,
         max_sections as int + total_len(pends(old(sections)@)) < usize::MAX as int,
     ensures
-        final(data)@.len() == DATA_SIZE, r.0 <= DATA_SIZE,
+        final(data)@.len() == DATA_SIZE, max_data_len <= DATA_SIZE ==> r.0 <= DATA_SIZE,
+        current_start as int + max_data_len as int <= u32::MAX as int ==> current_start as int + r.0 as int <= u32::MAX as int,
         r.3 is Some ==> *final(self_error),
         r.3 is None ==> *final(self_error) == *old(self_error),
         r.3 is None ==> stops_ok(pends(old(sections)@), r.4@, current_start as int + DATA_SIZE as int),
         r.3 is None ==> pends(final(sections)@) == next_pends(pends(old(sections)@), r.4@),
         r.3 is None ==> all_sec_ok(pends(final(sections)@), current_start as int + DATA_SIZE as int),
-        r.3 is None ==> final(data)@ == win_data(pends(old(sections)@), r.4@, old(sections)@.len() as int, old(data)@, current_start as int),
+        r.3 is None ==> c64(final(data)@) == win_data(pends(old(sections)@), r.4@, old(sections)@.len() as int, c64(old(data)@), current_start as int),
         r.3 is None ==> r.0 as int == win_mdl(pends(old(sections)@), r.4@, old(sections)@.len() as int, max_data_len as int, current_start as int),
         r.3 is None ==> r.2 == (all_none && none_taken(pends(old(sections)@), r.4@)),
         r.3 is None ==> r.1 as int <= max_sections as int + total_len(pends(old(sections)@)),
@@ -446,21 +474,23 @@ spec fn flat(ws: Seq<Win>) -> Seq<Value>
 }
 /// one window: its sums are the fold of the inputs' values, its output is the RLE of the sums
 spec fn win_ok(w: Win) -> bool {
-    &&& 0 <= w.cs && w.cs + DATA_SIZE as int <= u32::MAX as int
+    &&& 0 <= w.cs <= u32::MAX as int
     &&& stops_ok(w.pre, w.ks, w.cs + DATA_SIZE as int)
     &&& w.data == win_data(w.pre, w.ks, w.pre.len() as int, zeros(), w.cs)
-    &&& 0 <= w.mdl <= DATA_SIZE
+    &&& 0 <= w.mdl <= DATA_SIZE && w.cs + w.mdl <= u32::MAX as int
+    &&& w.mdl == win_mdl(w.pre, w.ks, w.pre.len() as int, 0, w.cs)   // (iii) the largest in-window end touched in THIS window
     &&& runs_tile(w.runs, w.mdl)
     &&& forall|q: int| 0 <= q < w.runs.len() ==> run_ok(w.data, (#[trigger] w.runs[q]).0, w.runs[q].1, w.mdl)
     &&& w.out == emit(w.runs, w.data, w.cs)
 }
 #[verifier::opaque]
 spec fn windows_ok(ws: Seq<Win>) -> bool { forall|i: int| 0 <= i < ws.len() ==> win_ok(#[trigger] ws[i]) }
-/// windows follow each other: starts advance by exactly DATA_SIZE, each window starts from what the
-/// previous one left pending, the sections now hold what the last one left pending
+/// windows follow each other: starts advance by exactly DATA_SIZE (saturating at u32::MAX), each window
+/// starts from what the previous one left pending, the sections now hold what the last one left pending
 #[verifier::opaque]
 spec fn chain_ok(ws: Seq<Win>, ns: int, cur: Seq<Seq<Result<Value, MergeError>>>) -> bool {
-    &&& forall|i: int| 0 <= i < ws.len() ==> (#[trigger] ws[i]).cs + (ws.len() - i) * (DATA_SIZE as int) == ns
+    &&& forall|i: int| 0 <= i < ws.len() - 1 ==> (#[trigger] ws[i + 1]).cs == next_cs(ws[i].cs)
+    &&& ws.len() > 0 ==> ns == next_cs(ws.last().cs)
     &&& forall|i: int| 0 <= i < ws.len() - 1 ==> (#[trigger] ws[i + 1]).pre == next_pends(ws[i].pre, ws[i].ks)
     &&& ws.len() > 0 ==> cur == next_pends(ws.last().pre, ws.last().ks)
 }
@@ -471,12 +501,11 @@ spec fn conserved(h: Hist, pending_out: Seq<Value>) -> bool { h.emitted + pendin
 #[verifier::opaque]
 spec fn stream_sorted(ws: Seq<Win>, ns: int) -> bool { sorted_in(flat(ws), 0, ns) }
 #[verifier::opaque]
-spec fn inputs_ok(ps: Seq<Seq<Result<Value, MergeError>>>, ns: int, limit: int) -> bool {
+spec fn inputs_ok(ps: Seq<Seq<Result<Value, MergeError>>>, ns: int) -> bool {
     &&& all_sec_ok(ps, ns)
-    &&& ends_by(ps, limit)
     &&& total_len(ps) <= MAXHALF
-    &&& limit + 2 * (DATA_SIZE as int) <= u32::MAX as int
 }
+spec fn all_empty(ps: Seq<Seq<Result<Value, MergeError>>>) -> bool { forall|i: int| 0 <= i < ps.len() ==> (#[trigger] ps[i]).len() == 0 }
 
 // ---------------- lemmas (D) ----------------
 proof fn lemma_flat_push(ws: Seq<Win>, w: Win)
@@ -515,18 +544,19 @@ proof fn lemma_total_len_suffix(pre: Seq<Seq<Result<Value, MergeError>>>, ks: Se
 proof fn lemma_step_stream(h: Hist, lv: Option<Value>, w: Win)
     requires
         conserved(h, opt_v(lv)), stream_sorted(h.wins, w.cs),
-        0 <= w.cs, 0 <= w.mdl <= DATA_SIZE,
+        0 <= w.cs, 0 <= w.mdl <= DATA_SIZE, w.cs + w.mdl <= u32::MAX as int,
         sorted_in(w.out, w.cs, w.cs + w.mdl),
     ensures
-        conserved(Hist { wins: h.wins.push(w), emitted: h.emitted, limit: h.limit }, opt_v(lv) + w.out),
-        stream_sorted(h.wins.push(w), w.cs + DATA_SIZE as int),
+        conserved(Hist { wins: h.wins.push(w), emitted: h.emitted }, opt_v(lv) + w.out),
+        stream_sorted(h.wins.push(w), next_cs(w.cs)),
         queue_sorted(w.out),
         lv is Some ==> lv->Some_0.start < lv->Some_0.end && lv->Some_0.end <= w.cs,
         w.out.len() > 0 ==> w.cs <= w.out[0].start,
 {
     reveal(stream_sorted); reveal(sorted_in); reveal(queue_sorted);
     lemma_flat_push(h.wins, w);
-    lemma_sorted_concat(flat(h.wins), w.out, 0, w.cs, w.cs + DATA_SIZE as int);
+    lemma_sorted_concat(flat(h.wins), w.out, 0, w.cs, w.cs + w.mdl);
+    lemma_sorted_widen(flat(h.wins) + w.out, 0, w.cs + w.mdl, next_cs(w.cs));
     assert(h.emitted + (opt_v(lv) + w.out) =~= (h.emitted + opt_v(lv)) + w.out);
     let f = flat(h.wins);
     if lv is Some {
@@ -548,58 +578,65 @@ proof fn lemma_step_windows(ws: Seq<Win>, w: Win)
 /// part 3: the chain of windows
 proof fn lemma_step_chain(ws: Seq<Win>, w: Win, cur: Seq<Seq<Result<Value, MergeError>>>, post: Seq<Seq<Result<Value, MergeError>>>)
     requires chain_ok(ws, w.cs, cur), w.pre == cur, post == next_pends(cur, w.ks),
-    ensures chain_ok(ws.push(w), w.cs + DATA_SIZE as int, post),
+    ensures chain_ok(ws.push(w), next_cs(w.cs), post),
 {
     reveal(chain_ok);
     let ws2 = ws.push(w);
-    assert forall|i: int| 0 <= i < ws2.len() implies (#[trigger] ws2[i]).cs + (ws2.len() - i) * (DATA_SIZE as int) == w.cs + DATA_SIZE as int by {
-        if i < ws.len() { assert(ws2[i] == ws[i]); }
+    assert forall|i: int| 0 <= i < ws2.len() - 1 implies (#[trigger] ws2[i + 1]).cs == next_cs(ws2[i].cs) by {
+        assert(ws2[i] == ws[i]);
+        if i + 1 < ws.len() { assert(ws2[i + 1] == ws[i + 1]); } else { assert(ws[i] == ws.last()); }
     }
     assert forall|i: int| 0 <= i < ws2.len() - 1 implies (#[trigger] ws2[i + 1]).pre == next_pends(ws2[i].pre, ws2[i].ks) by {
         assert(ws2[i] == ws[i]);
         if i + 1 < ws.len() { assert(ws2[i + 1] == ws[i + 1]); } else { assert(ws[i] == ws.last()); }
     }
 }
-/// part 4: the inputs still pending keep their bounds
-proof fn lemma_step_inputs(cur: Seq<Seq<Result<Value, MergeError>>>, ks: Seq<int>, cs: int, limit: int, post: Seq<Seq<Result<Value, MergeError>>>)
+/// part 4: the inputs still pending keep their bounds (the next window starts at or before this one's end)
+proof fn lemma_step_inputs(cur: Seq<Seq<Result<Value, MergeError>>>, ks: Seq<int>, cs: int, post: Seq<Seq<Result<Value, MergeError>>>)
     requires
-        inputs_ok(cur, cs, limit), stops_ok(cur, ks, cs + DATA_SIZE as int),
+        inputs_ok(cur, cs), stops_ok(cur, ks, cs + DATA_SIZE as int),
         post == next_pends(cur, ks), all_sec_ok(post, cs + DATA_SIZE as int),
-    ensures inputs_ok(post, cs + DATA_SIZE as int, limit),
+    ensures inputs_ok(post, next_cs(cs)),
 {
     reveal(inputs_ok);
     assert forall|i: int| 0 <= i < cur.len() implies 0 <= #[trigger] ks[i] <= cur[i].len() by {
         assert(is_stop(cur[i], ks[i], cs + DATA_SIZE as int));
     }
-    assert forall|i: int, j: int| 0 <= i < post.len() && 0 <= j < post[i].len() && (#[trigger] post[i][j]) is Ok implies post[i][j]->Ok_0.end <= limit by {
-        assert(post[i][j] == cur[i][ks[i] + j]);
+    assert forall|i: int| 0 <= i < post.len() implies sec_ok(#[trigger] post[i], next_cs(cs)) by {
+        assert(sec_ok(post[i], cs + DATA_SIZE as int));
+        reveal(sec_ok);
     }
     lemma_total_len_suffix(cur, ks);
 }
-/// past the last input base nothing can be taken: the window sees no value (termination of the window loop)
-proof fn lemma_past_limit(ps: Seq<Seq<Result<Value, MergeError>>>, ks: Seq<int>, cs: int, limit: int)
-    requires inputs_ok(ps, cs, limit), stops_ok(ps, ks, cs + DATA_SIZE as int), cs > limit,
+proof fn lemma_sorted_widen(o: Seq<Value>, lo: int, hi: int, hi2: int)
+    requires sorted_in(o, lo, hi), hi <= hi2,
+    ensures sorted_in(o, lo, hi2),
+{
+    reveal(sorted_in);
+}
+/// the saturated window (its end lies beyond u32::MAX) drains every section: no u32 end reaches its end
+proof fn lemma_saturated_drains(ps: Seq<Seq<Result<Value, MergeError>>>, ks: Seq<int>, wend: int)
+    requires stops_ok(ps, ks, wend), wend > u32::MAX as int,
+    ensures all_empty(next_pends(ps, ks)), [[L: spec/saturated_window_parks_nothing_and_drains_every_section]]
+{
+    assert forall|i: int| 0 <= i < ps.len() implies (#[trigger] next_pends(ps, ks)[i]).len() == 0 by {
+        assert(is_stop(ps[i], ks[i], wend) && !stop_is_err(ps[i], ks[i]));
+    }
+}
+/// when nothing is pending no section sees a value
+proof fn lemma_empty_none_taken(ps: Seq<Seq<Result<Value, MergeError>>>, ks: Seq<int>, wend: int)
+    requires stops_ok(ps, ks, wend), all_empty(ps),
     ensures none_taken(ps, ks),
 {
-    reveal(inputs_ok); reveal(sec_ok);
     assert forall|i: int| 0 <= i < ps.len() implies taken(#[trigger] ps[i], ks[i]).len() == 0 by {
-        let p = ps[i];
-        assert(sec_ok(p, cs));
-        assert(is_stop(p, ks[i], cs + DATA_SIZE as int) && !stop_is_err(p, ks[i]));
-        if p.len() > 0 {
-            if p[0] is Ok {
-                assert(cs <= p[0]->Ok_0.end);
-                assert(ps[i][0]->Ok_0.end <= limit);
-            } else {
-                assert(ks[i] == 0);
-            }
-        }
+        assert(is_stop(ps[i], ks[i], wend));
+        assert(ps[i].len() == 0);
     }
 }
 /// a window in which no section saw a value leaves every section exhausted
 proof fn lemma_none_taken_exhausted(ps: Seq<Seq<Result<Value, MergeError>>>, ks: Seq<int>, wend: int)
     requires stops_ok(ps, ks, wend), none_taken(ps, ks),
-    ensures forall|i: int| 0 <= i < ps.len() ==> (#[trigger] next_pends(ps, ks)[i]).len() == 0,
+    ensures all_empty(next_pends(ps, ks)),
 {
     assert forall|i: int| 0 <= i < ps.len() implies (#[trigger] next_pends(ps, ks)[i]).len() == 0 by {
         assert(taken(ps[i], ks[i]).len() == 0);
@@ -707,7 +744,7 @@ spec fn streams(s: Seq<VIter>) -> Seq<Seq<Result<Value, MergeError>>> { Seq::new
 fn pair_with_none(sections: Vec<VIter>) -> (r: Vec<(VIter, Option<Value>)>)
     ensures r@.len() == sections@.len(), forall|i: int| 0 <= i < r@.len() ==> (#[trigger] r@[i]).0 == sections@[i] && r@[i].1 is None,
 { unimplemented!() }
-proof fn lemma_initial_state(secs: Seq<(VIter, Option<Value>)>, ss: Seq<VIter>, limit: int)
+proof fn lemma_initial_state(secs: Seq<(VIter, Option<Value>)>, ss: Seq<VIter>)
     requires secs.len() == ss.len(), forall|i: int| 0 <= i < secs.len() ==> (#[trigger] secs[i]).0 == ss[i] && secs[i].1 is None,
     ensures
         pends(secs) == streams(ss),
